@@ -152,32 +152,48 @@ structure Field where
   comment : Str
 deriving Repr, DecidableEq
 
+/-- optional `[size]` and the field name -/
+def parseSizeName (p : P) : Except PErr ((Option Str × Str) × P) :=
+  let (nx, pn) := peekOne cc p
+  if str nx = [91] then
+    let pn := (take pn).2
+    let (size, pn) := eatWord cc pn
+    let (close, pn) := eatOne cc pn
+    if str close ≠ [93] then .error PErr.invalidFieldSizeClose
+    else
+      let (nm, pn) := eatWord cc pn
+      .ok ((some (str size), str nm), pn)
+  else
+    let (nm, pn) := eatWord cc pn
+    .ok ((none, str nm), pn)
+
+/-- index/auto suffix, `;`, comment -/
+def parseFieldTail (p : P) : Except PErr (((Option IndexType × Bool) × Str) × P) :=
+  match parseIndexAuto cc p with
+  | .error e => .error e
+  | .ok (ia, p) =>
+    let (semi, p) := eatOne cc p
+    if str semi ≠ [59] then .error PErr.invalidFieldCommentSeparater
+    else
+      let (comment, p) := eatQuoted cc p
+      .ok ((ia, str comment), p)
+
 def fieldLoop (fixed : Bool) : Nat → P → List Field → Except PErr (List Field × P)
   | 0, _, _ => .error .outOfFuel
-  | fuel + 1, p, acc => do
-    let (ft, p) ← tryParseType cc fixed (p.rest.length + 1) p
-    match ft with
-    | none => pure (acc, p)
-    | some ft =>
-      let (nx, pn) := peekOne cc p
-      let ((size, name), p) ←
-        if str nx = [91] then
-          let pn := (take pn).2
-          let (size, pn) := eatWord cc pn
-          let (close, pn) := eatOne cc pn
-          if str close ≠ [93] then throw PErr.invalidFieldSizeClose
-          let (nm, pn) := eatWord cc pn
-          pure ((some (str size), str nm), pn)
-        else
-          let (nm, pn) := eatWord cc pn
-          pure ((none, str nm), pn)
-      let ((it, auto), p) ← parseIndexAuto cc p
-      let (semi, p) := eatOne cc p
-      if str semi ≠ [59] then throw PErr.invalidFieldCommentSeparater
-      let (comment, p) := eatQuoted cc p
-      let acc := acc ++ [{ ftype := ft, size := size, name := name, indexType := it, auto := auto, comment := str comment }]
-      let (nx, pn) := peekOne cc p
-      if str nx = [41] then pure (acc, pn) else fieldLoop fixed fuel pn acc
+  | fuel + 1, p, acc =>
+    match tryParseType cc fixed (p.rest.length + 1) p with
+    | .error e => .error e
+    | .ok (none, p) => .ok (acc, p)
+    | .ok (some ft, p) =>
+      match parseSizeName cc p with
+      | .error e => .error e
+      | .ok ((size, name), p) =>
+        match parseFieldTail cc p with
+        | .error e => .error e
+        | .ok (((it, auto), comment), p) =>
+          let acc := acc ++ [{ ftype := ft, size := size, name := name, indexType := it, auto := auto, comment := comment }]
+          let (nx, pn) := peekOne cc p
+          if str nx = [41] then .ok (acc, pn) else fieldLoop fixed fuel pn acc
 
 structure Decl where
   kind : Str
